@@ -136,6 +136,23 @@ Theorem C06_stream_VB : forall (dcount : list N -> nat) (kind : N) (lrecl : nat)
 Proof. exact stream_VB. Qed.
 Print Assumptions C06_stream_VB.
 
+(* RECFM F / FB: the variable-length records stored in a fixed-length file, every record followed by padding up to the
+   LRECL (any padding bytes): the reader cuts the file at the LRECL (C05_F), each row's buffer is the stored record, and its
+   navigator is the walk on the record itself - laid out by that record's own counters, ending at its own extent. *)
+Theorem C06_stream_F : forall (dcount : list N -> nat) (kind : N) (lrecl : nat) (t : item)
+    (es : list env) (rs ps : list (list N)),
+  flat_odo t = true ->
+  Forall2 (fun e r => length r = extent e t /\ counters_hold dcount e t r) es rs ->
+  Forall2 (fun r p => exists more, p = r ++ more) rs ps ->
+  legal_F lrecl ps = true ->
+  exists rows,
+    rows_F dcount kind (Some lrecl) (build t) (write_F ps) = Ok (rows, Done)
+    /\ map (@row_buf N) rows = ps
+    /\ Forall2 (fun rw r => nav_of dcount r (build t) = Ok (row_nav rw)) rows rs
+    /\ Forall2 (fun rw e => lend (n_loc (row_nav rw)) = extent e t) rows es.
+Proof. exact stream_F. Qed.
+Print Assumptions C06_stream_F.
+
 (* Known finding 1 (K-odo-lrecl-none): the docstring of COBOL_EBCDIC_File says to pass lrecl=None for OCCURS
    DEPENDING ON layouts; set_schema then asks LocationMaker.from_schema() for the length, which raises ValueError
    for every schema holding an ODO table: no row is delivered, whatever the file. *)
